@@ -520,8 +520,10 @@ pub fn check_main(args: &[String]) -> i32 {
     for (i, why, trace) in confirmed_lost.iter() {
         let key = "no-return".to_string();
         let kf = known.findings.iter().find(|f| f.property == id && f.key == key);
-        if id != "C01" {
-            // only C01 speaks of termination; elsewhere a lost run is a harness-level problem
+        if id != "C01" && id != "C18" {
+            // C01 speaks of termination, and C18 says what a line evaluates to when a rule accepts or
+            // declines (an evaluation that never returns evaluates to nothing); elsewhere a lost run
+            // is a harness-level problem
             harness_errors.push(format!("index {} did not return: {}", i, why));
             continue;
         }
@@ -532,11 +534,11 @@ pub fn check_main(args: &[String]) -> i32 {
         if let Some(t) = trace {
             // minimise the first few with child processes under the time limit
             let min = if n_violations <= 3 { shrink_no_return(t, hang_s, 14) } else { t.clone() };
-            let rf = ReplayFile { property: id.clone(), key: key.clone(), oracle: "O-total".into(), event: min.events.len().saturating_sub(1), detail: why.clone(), seed: mix(base, &id, *i), base_seed: base, index: *i, host_tz: t.host_tz.clone(), original_events: t.events.len(), trace: min };
+            let rf = ReplayFile { property: id.clone(), key: key.clone(), oracle: "O-returns".into(), event: min.events.len().saturating_sub(1), detail: why.clone(), seed: mix(base, &id, *i), base_seed: base, index: *i, host_tz: t.host_tz.clone(), original_events: t.events.len(), trace: min };
             std::fs::write(&path, serde_json::to_string_pretty(&rf).unwrap()).unwrap();
         }
         out_lines.push(format!("VIOLATION property={} replay={}", id, path));
-        out_lines.push(format!("  oracle=O-total key=no-return index={} : evaluation did not return ({})", i, why));
+        out_lines.push(format!("  oracle=O-returns key=no-return index={} : evaluation did not return ({})", i, why));
     }
 
     if let Ok(path) = std::env::var("VERIF_DUMP_HASHES") {
